@@ -35,7 +35,7 @@ type C19Case struct {
 	Vec    []int64          `json:"vec"`
 }
 
-const c19Rule = "static part (exhaustive, shard 0): every ordered pair of the 11 numeric primitives x {+,-,*,/,**} as a computed field `a op b`: yardl gives a verdict for each; verdict and declared result type are the same for (A op B) and (B op A); the declared C++ return type and the Python annotation agree; ** yields float64. dynamic part: 6-10 generated well-typed expressions per case (depth <= 3; field access, integer and real literals, + - * / **, unary minus, casts, vector indexing, size(); explicit parentheses in every association pattern) over a record with one field per numeric primitive, evaluated on generated in-range operand values by the generated C++ and Python code; oracle: both equal the exact (rational) value of the expression whenever that value is defined by the documents and fits the declared type (integers exactly; reals within 1e-6 relative for float32 results, 1e-12 for float64; ** within 1e-9). non-trivial = an expression with a right-nested group at equal precedence, mixed signedness/width, or a division; distinct = expression text + values"
+const c19Rule = "static part (exhaustive, shard 0): every ordered pair of the 11 numeric primitives x {+,-,*,/,**} as a computed field `a op b`: yardl gives a verdict for each; verdict and declared result type are the same for (A op B) and (B op A); the declared C++ return type and the Python annotation agree; ** yields float64. dynamic part: 6-10 generated well-typed expressions per case plus two association probes `A op1 (B op2 C)` / `(A op1 B) op2 C` at equal precedence (depth <= 3; field access, integer and real literals, + - * / **, unary minus, casts, vector indexing, size(); explicit parentheses in every association pattern) over a record with one field per numeric primitive, evaluated on generated in-range operand values by the generated C++ and Python code; oracle: both equal the exact (rational) value of the expression whenever that value is defined by the documents and fits the declared type (integers exactly; reals within 1e-6 relative for float32 results, 1e-12 for float64; ** within 1e-9); an integer division with a non-integral quotient is judged too: against the common result when flooring and truncating agree, else C++ against Python. non-trivial = an expression with a right-nested group at equal precedence, mixed signedness/width, or a division; distinct = expression text + values"
 
 func c19Model(exprs []string) *model.Package {
 	rec := &model.Def{Kind: model.DRecord, Name: "Rec"}
@@ -227,6 +227,25 @@ func genC19(t *rapid.T) C19Case {
 	for i := 0; i < n; i++ {
 		c.Exprs = append(c.Exprs, genExpr2(t, 3))
 	}
+	// two association probes per case: A op1 (B op2 C) and (A op1 B) op2 C with op1, op2 of equal
+	// precedence, over signed integer fields and small literals (all eight nestings of +,- and of *,/)
+	atom := func(label string) *ref.Expr2 {
+		if rapid.IntRange(0, 2).Draw(t, label+"Lit") == 0 {
+			return &ref.Expr2{Kind: "int", Lit: strconv.Itoa(rapid.IntRange(1, 9).Draw(t, label+"V"))}
+		}
+		f := rapid.SampledFrom([]string{"i8", "i16", "i32", "i64"}).Draw(t, label+"F")
+		return &ref.Expr2{Kind: "field", Name: f, Prim: map[string]string{"i8": "int8", "i16": "int16", "i32": "int32", "i64": "int64"}[f]}
+	}
+	for i := 0; i < 2; i++ {
+		ops := rapid.SampledFrom([][]string{{"+", "-"}, {"*", "/"}}).Draw(t, "probeOps")
+		o1, o2 := rapid.SampledFrom(ops).Draw(t, "probeOp1"), rapid.SampledFrom(ops).Draw(t, "probeOp2")
+		a, b, cc := atom("pa"), atom("pb"), atom("pc")
+		if rapid.Bool().Draw(t, "probeRight") {
+			c.Exprs = append(c.Exprs, &ref.Expr2{Kind: "bin", Op: o1, L: a, R: &ref.Expr2{Kind: "paren", L: &ref.Expr2{Kind: "bin", Op: o2, L: b, R: cc}}})
+		} else {
+			c.Exprs = append(c.Exprs, &ref.Expr2{Kind: "bin", Op: o2, L: &ref.Expr2{Kind: "paren", L: &ref.Expr2{Kind: "bin", Op: o1, L: a, R: b}}, R: cc})
+		}
+	}
 	return c
 }
 
@@ -275,8 +294,14 @@ func checkC19(c C19Case) *Fail {
 		// (more generally: an evaluation the documents do not define may be undefined behaviour in
 		// C++, e.g. a negative real converted to an unsigned integer and then used as a divisor)
 		if r := e.Eval(preFields, map[string][]*big.Rat{"v": preVec}); r.Undefined != "" {
-			rec.Class("skipped:" + strings.SplitN(r.Undefined, " (", 2)[0])
-			continue
+			// an inexact integer division is still run when the expression is defined under both
+			// candidate rounding rules (the targets must then agree with each other, see below)
+			rf := e.EvalRounded("floor", preFields, map[string][]*big.Rat{"v": preVec})
+			rt := e.EvalRounded("trunc", preFields, map[string][]*big.Rat{"v": preVec})
+			if r.Undefined != ref.IntDivUndefined || rf.Undefined != "" || rt.Undefined != "" || rf.IsFloat || rt.IsFloat {
+				rec.Class("skipped:" + strings.SplitN(r.Undefined, " (", 2)[0])
+				continue
+			}
 		}
 		p := c19Model([]string{e.Text()})
 		ok := false
@@ -372,6 +397,43 @@ func checkC19(c C19Case) *Fail {
 		decl := declared[i]
 		ctx := func() string {
 			return fmt.Sprintf("computed field `%s` (read as %s), declared %s, on %v v=%v", e.Text(), e.Tree(), decl, c.Values, c.Vec)
+		}
+		if want.Undefined == ref.IntDivUndefined {
+			// inexact integer division. Where flooring and truncating give the same result
+			// (non-negative quotients) that result is the value; otherwise the documents leave the
+			// rounding open, but the targets still have to agree with each other.
+			wf := e.EvalRounded("floor", fields, map[string][]*big.Rat{"v": vec})
+			wt := e.EvalRounded("trunc", fields, map[string][]*big.Rat{"v": vec})
+			if wf.Undefined != "" || wt.Undefined != "" || wf.IsFloat || wt.IsFloat || !model.IsIntPrim(decl) || !ref.FitsDeclared(wf, decl) || !ref.FitsDeclared(wt, decl) {
+				rec.Class("undefined:" + strings.SplitN(want.Undefined, " (", 2)[0])
+				continue
+			}
+			kc, ic, _, ec := parseCf(cppVals[i])
+			kp, ip, _, ep := parseCf(pyVals[i])
+			if kc == "x" || kp == "x" {
+				return failf("c19", "a target raised on an in-range evaluation: C++ %q Python %q\n%s", ec, ep, ctx())
+			}
+			if kc != "i" || kp != "i" {
+				return failf("c19", "a non-integer result (C++ %s, Python %s) for a field declared %s\n%s", cppVals[i], pyVals[i], decl, ctx())
+			}
+			rec.EvalN(1)
+			if wf.Val.Cmp(wt.Val) == 0 {
+				rec.Class("inexact-division:rounding-irrelevant")
+				rec.Nontrivial(core.Hash(e.Text(), c.Values, c.Vec, "div"))
+				for lang, g := range map[string]*big.Int{"C++": ic, "Python": ip} {
+					if new(big.Rat).SetInt(g).Cmp(wf.Val) != 0 {
+						return failf("c19", "%s computes %s; every rounding of the integer divisions gives %s\n%s", lang, g, wf.Val.RatString(), ctx())
+					}
+				}
+				continue
+			}
+			rec.Class("inexact-division:rounding-matters")
+			if ic.Cmp(ip) != 0 {
+				f := failf("c19", "the targets disagree on an integer division with a negative, non-integral quotient: C++ computes %s, Python computes %s (truncation gives %s, flooring %s)\n%s", ic, ip, wt.Val.RatString(), wf.Val.RatString(), ctx())
+				f.KnownID = "C19-integer-division-rounding"
+				return f
+			}
+			continue
 		}
 		if want.Undefined != "" {
 			rec.Class("undefined:" + strings.SplitN(want.Undefined, " (", 2)[0])
